@@ -413,6 +413,13 @@ def r3(ctx):
             follow = (len(dials) == 1 and dials[0][1][:2] == ["namespace", "peer"] and "Resync" in str(dials[0][1])) if queued else not dials
             ctx.check(got == "returns" and follow, "C11.R3", hc.path, "declined-dial-follows-up-a-refused-report[%s]" % ("queued" if queued else "none-queued"),
                       "%s; calls %s; spec: exactly one follow-up dial (reason Resync) to the same peer iff abort_connect hands back a queued report" % (got, log), hc.sp)
+        if not label.startswith("RemoteAbort(AlreadySyncing)"):
+            # "both the initiating and the accepting side finish with success or a reported error": the outcome of our dial reaches
+            # on_sync_finished (which records it and tells the subscribers) - except when the remote declined because a session with
+            # us is running already: that session reports
+            rep = [e for e in log if e[0] == "on_sync_finished"]
+            ctx.check(got == "returns" and len(rep) == 1 and rep[0][1][:2] == ["namespace", "peer"], "C11.R3", hc.path, "dial-completion-is-reported[%s]" % label,
+                      "%s; calls %s; spec: one on_sync_finished(namespace, peer, ..) carrying the outcome" % (got, log), hc.sp)
         ctx.check(got == "returns" and released, "C11.R3", hc.path, "dial-completion-releases-slot[%s]" % label,
                   "%s; slot-releasing calls %s; spec: when our dial ends - however - the (namespace, peer) slot it took in start_connect is released "
                   "(finish via on_sync_finished) or released unless an accepted session owns it (abort_connect); returning without either leaves the slot "
